@@ -13,7 +13,7 @@ use std::collections::BTreeSet;
 pub const DEF: PropDef = PropDef {
     id: "C10",
     level: "exploration",
-    rule: "all programs that build a dictionary from every ordered selection of k=2,3 (thorough also 4) keys out of {\"p\",\"q\",\"r\",true,null,mysterious,\"true\",\"null\",\"9\",\"10\",\"1a\",\"\"} and then apply one of 27 operations (join with/without delimiter, join with a non-string value at each key position, print, compare, copy, every erroring statement whose message renders the array, array used as key), plus a parse/lint/runtime-error corpus; plus the confusable-keys family (pairs / triples of keys that truncation at 7..1000 characters, case folding, trimming, normalisation, numeric reading or escaping would merge, every insertion order); plus histories (all ordered pairs of 52 programs run one after the other on one thread: the second must behave as it does alone); each program is run under hash seeds 0,1,2,... in fresh threads until every one of the k! iteration orders of its dictionary has been observed (cap 64 / 600 seeds); stdout, result, error text, parse errors and lint reports must be byte-identical across all runs; non-trivial = at least two different iteration orders were actually exercised for the program; distinct = distinct program text",
+    rule: "all programs that build a dictionary from every ordered selection of k=2 keys, of k=3 keys (quick: out of the first 7 keys; thorough: all, and k=4) out of {\"p\",\"q\",\"r\",true,null,mysterious,\"true\",\"null\",\"9\",\"10\",\"1a\",\"\"} and then apply one of 47 operations (join with/without delimiter, join with a non-string value at each key position, print, compare, copy, every erroring statement whose message renders the array, the array as delimiter / radix / key / callee / element of another array), plus a parse/lint/runtime-error corpus; plus the confusable-keys family (pairs / triples of keys that truncation at 7..1000 characters, case folding, trimming, normalisation, numeric reading or escaping would merge, every insertion order); plus histories (all ordered pairs of 52 programs run one after the other on one thread: the second must behave as it does alone); each program is run under hash seeds 0,1,2,... in fresh threads until every one of the k! iteration orders of its dictionary has been observed (cap 64 / 600 seeds); stdout, result, error text, parse errors and lint reports must be byte-identical across all runs; non-trivial = at least two different iteration orders were actually exercised for the program; distinct = distinct program text",
     assumptions: &[
         "seed control relies on std resolving getrandom through a weak symbol; ./check selftest fails loudly if the same seed stops giving the same order or different seeds stop giving different orders",
         "a dictionary whose orders were not all reached within the seed cap is reported in the evidence as partially covered",
@@ -52,6 +52,27 @@ pub const OPS: &[&str] = &[
     "@ALLNUM\njoin x with \",\"\n",
     "let x at @K0 be 7\nlet x at @KL be null\njoin x\n",
     "rock x with \"s\"\nlet x at @K0 be 7\nlet x at @K1 be 8\njoin x\n",
+    // the dictionary in every other operand slot of a statement that can fail (the message may render it)
+    "cut \"abc\" into y with x\n",
+    "rock y with \"a\", \"b\"\njoin y with x\n",
+    "cast \"12\" into y with x\n",
+    "say \"s\" at x\n",
+    "say 5 at x\n",
+    "say x taking 1\n",
+    "put x into y\nknock y down\n",
+    "put \"s\" into y\nlet y at x be 1\n",
+    "say \"s\" < x\nsay x < \"s\"\n",
+    "say mysterious < x\n",
+    "say x < mysterious\n",
+    "rock y with x\ncut y\n",
+    "rock y with x\nsay y at y\n",
+    "rock y with \"a\", x\njoin y\n",
+    "let y at \"n\" be x\nsay y at y\n",
+    "turn down x\n",
+    "turn round x\n",
+    "knock x down\n",
+    "roll x at \"zz\"\n",
+    "rock x at \"zz\" with 1\njoin x\n",
 ];
 
 pub struct C10 {
@@ -64,8 +85,13 @@ fn factorial(k: usize) -> usize {
 }
 
 pub fn dict_programs(k: usize) -> Space<(String, usize)> {
+    dict_programs_over(k, KEYS.len())
+}
+
+/// dictionaries over the first `nkeys` keys of KEYS
+pub fn dict_programs_over(k: usize, nkeys: usize) -> Space<(String, usize)> {
     // ordered selections of k distinct keys
-    let keys: Space<usize> = Space::of((0..KEYS.len()).collect());
+    let keys: Space<usize> = Space::of((0..nkeys).collect());
     let sel = keys.seq_exact(k).filter_collect(|v| {
         let mut s = v.clone();
         s.sort();
@@ -91,7 +117,7 @@ pub fn dict_programs(k: usize) -> Space<(String, usize)> {
 }
 
 fn build(tier: Tier) -> Box<dyn Check> {
-    let mut fams = vec![("dictionary k=2".to_string(), dict_programs(2)), ("dictionary k=3".to_string(), dict_programs(3))];
+    let mut fams = vec![("dictionary k=2".to_string(), dict_programs(2)), ("dictionary k=3".to_string(), if tier == Tier::Thorough { dict_programs(3) } else { dict_programs_over(3, 7) })];
     if tier == Tier::Thorough {
         fams.push(("dictionary k=4".to_string(), dict_programs(4)));
     }
